@@ -11,6 +11,8 @@ extern crate rustc_index;
 extern crate rustc_interface;
 extern crate rustc_middle;
 extern crate rustc_span;
+extern crate rustc_infer;
+extern crate rustc_trait_selection;
 
 use rustc_driver::Compilation;
 use rustc_hir::def::DefKind;
@@ -21,6 +23,8 @@ use rustc_middle::mir::{
 };
 use rustc_middle::ty::{self, Instance, Ty, TyCtxt, TypingEnv};
 use rustc_span::Span;
+use rustc_infer::infer::TyCtxtInferExt;
+use rustc_trait_selection::infer::InferCtxtExt;
 use std::collections::HashMap;
 use std::fmt::Write as _;
 
@@ -658,11 +662,26 @@ impl rustc_driver::Callbacks for Cb {
                     } else {
                         "struct"
                     };
+                    let (is_send, is_sync) = {
+                        let self_ty = tcx.type_of(did).instantiate_identity().skip_norm_wip();
+                        let tenv = TypingEnv::post_analysis(tcx, did);
+                        let (infcx, penv) = tcx.infer_ctxt().build_with_typing_env(tenv);
+                        let mut r = (true, true);
+                        if let Some(sd) = tcx.get_diagnostic_item(rustc_span::sym::Send) {
+                            r.0 = infcx.type_implements_trait(sd, [self_ty], penv).must_apply_modulo_regions();
+                        }
+                        if let Some(sd) = tcx.get_diagnostic_item(rustc_span::sym::Sync) {
+                            r.1 = infcx.type_implements_trait(sd, [self_ty], penv).must_apply_modulo_regions();
+                        }
+                        r
+                    };
                     let _ = write!(
                         out,
-                        "{{\"k\":\"adt\",\"path\":{},\"kind\":\"{}\",\"generics\":[{}],\"repr_c\":{},\"repr_transparent\":{},\"repr_int\":{},\"vis\":{},\"span\":{},\"variants\":[",
+                        "{{\"k\":\"adt\",\"path\":{},\"kind\":\"{}\",\"send\":{},\"sync\":{},\"generics\":[{}],\"repr_c\":{},\"repr_transparent\":{},\"repr_int\":{},\"vis\":{},\"span\":{},\"variants\":[",
                         q(&cx.path(did)),
                         kind,
+                        is_send,
+                        is_sync,
                         gp.join(","),
                         repr.c(),
                         repr.transparent(),
